@@ -6,7 +6,6 @@ from hypothesis import strategies as st
 
 from rexverif import compiledrun, rawgraphs, sysgen
 from rexverif.common import CaseResult
-from rexverif.probes import Trace
 
 ID = "C08"
 TIERS = {
@@ -102,6 +101,8 @@ def check(case) -> CaseResult:
     res = CaseResult()
     raw = case["raw"]
     res.label("mode_" + case["mode"], "prune_" + str(case["prune"]), "sizes_" + case["user_sizes"])
+    from rexverif.probes import Trace
+
     trace = Trace()
     nodes = sysgen.build_nodes(rawgraphs.to_sys_spec(raw), trace=trace)
     nid = {n: nodes[n].nid for n in nodes}
